@@ -32,11 +32,15 @@ Rules == {"R1", "R2", "R3", "R4", "R5", "R6", "R7", "R8", "R9", "R10", "R11", "R
           \* collision rules against other sibling shapes: o = the colliding sibling is a proto3 optional
           \* field, x = it is a member of another (plain) oneof
           "R15o", "R15x", "R17o", "R17x", "R19o", "R19x",
+          \* the annotation on a field of the wrong type, written with the value that is the default of the
+          \* right type (PRESERVE, RFC3339, BASE64): still the annotation, still the wrong type
+          "R6d", "R9d", "R10d",
           \* the unbound-field rule by verb and by whether the configuration names a path at all
           \* (v = verb only: the RPC stays on its default route), d = DELETE
           "R24v", "R24d", "R24dv"}
 MethodRules == {"R21", "R22", "R23", "R24", "R24v", "R24d", "R24dv"}
 BaseRule(r) == CASE r \in {"R15o", "R15x"} -> "R15" [] r \in {"R17o", "R17x"} -> "R17" [] r \in {"R19o", "R19x"} -> "R19"
+                 [] r = "R6d" -> "R6" [] r = "R9d" -> "R9" [] r = "R10d" -> "R10"
                  [] r \in {"R24v", "R24d", "R24dv"} -> "R24" [] OTHER -> r
 MessageRules == Rules \ MethodRules
 
@@ -53,6 +57,9 @@ Bad(P, full, r) ==
        [] r = "R6"  -> Msg("Bad", full, <<Ann(F("a", "a", 1, "string", "one"), "empty", "NULL")>>)
        [] r = "R7"  -> Msg("Bad", full, <<Ann(FRef("a", "a", 1, "message", "rep", c), "empty", "OMIT")>>)
        [] r = "R8"  -> Msg("Bad", full, <<Ann(FMap("a", "a", 1, "string", "message", c), "empty", "NULL")>>)
+       [] r = "R6d" -> Msg("Bad", full, <<Ann(F("a", "a", 1, "string", "one"), "empty", "PRESERVE")>>)
+       [] r = "R9d" -> Msg("Bad", full, <<Ann(F("a", "a", 1, "string", "one"), "ts", "RFC3339")>>)
+       [] r = "R10d" -> Msg("Bad", full, <<Ann(F("a", "a", 1, "string", "one"), "bytes", "BASE64")>>)
        [] r = "R9"  -> Msg("Bad", full, <<Ann(F("a", "a", 1, "string", "one"), "ts", "UNIX_SECONDS")>>)
        [] r = "R10" -> Msg("Bad", full, <<Ann(F("a", "a", 1, "string", "one"), "bytes", "HEX")>>)
        [] r = "R11" -> Msg("Bad", full, <<Ann(FRef("a", "a", 1, "message", "rep", c), "flatten", TRUE)>>)
@@ -148,7 +155,9 @@ C12MethodCase(P, r, sur) ==
 (* that breaks none of the rules is accepted by all five plugins").        *)
 (***************************************************************************)
 Twins == {"T_unwrap_list", "T_unwrap_map", "T_unwrap_mapvalue", "T_nullable", "T_empty", "T_ts", "T_bytes", "T_flatten",
-          "T_flatten_prefix", "T_flatten_nested_twice", "T_oneof", "T_oneof_flat", "T_enum_custom", "T_enum_number", "T_int64", "T_get_query", "T_plain"}
+          "T_flatten_prefix", "T_flatten_nested_twice", "T_oneof", "T_oneof_flat", "T_enum_custom", "T_enum_number", "T_int64", "T_get_query", "T_plain",
+          \* one value of an annotation alone in its file (what a codec file imports / declares depends on which values occur)
+          "T_bytes_hex", "T_bytes_b64url", "T_ts_date", "T_empty_omit", "T_empty_null"}
 TwinMsgs(P, t) ==
   LET c == FN(P, "Child") c2 == FN(P, "Child2") IN
   CASE t = "T_unwrap_list" -> <<Msg("W", FN(P, "W"), <<Ann(F("items", "items", 1, "string", "rep"), "unwrap", TRUE)>>)>>
@@ -159,6 +168,11 @@ TwinMsgs(P, t) ==
     [] t = "T_empty"       -> <<Msg("W", FN(P, "W"), <<Ann(FRef("a", "a", 1, "message", "one", c), "empty", "NULL"),
                                                       Ann(FRef("b", "b", 2, "message", "one", c), "empty", "OMIT"),
                                                       Ann(FRef("d", "d", 3, "message", "one", c), "empty", "PRESERVE")>>)>>
+    [] t = "T_bytes_hex"   -> <<Msg("W", FN(P, "W"), <<Ann(F("a", "a", 1, "bytes", "one"), "bytes", "HEX"), Ann(F("bs", "bs", 2, "bytes", "rep"), "bytes", "HEX")>>)>>
+    [] t = "T_bytes_b64url" -> <<Msg("W", FN(P, "W"), <<Ann(F("a", "a", 1, "bytes", "one"), "bytes", "BASE64URL")>>)>>
+    [] t = "T_ts_date"     -> <<Msg("W", FN(P, "W"), <<Ann(FRef("a", "a", 1, "message", "one", "google.protobuf.Timestamp"), "ts", "DATE")>>)>>
+    [] t = "T_empty_omit"  -> <<Msg("W", FN(P, "W"), <<Ann(FRef("a", "a", 1, "message", "one", c), "empty", "OMIT"), F("s", "s", 2, "string", "one")>>)>>
+    [] t = "T_empty_null"  -> <<Msg("W", FN(P, "W"), <<Ann(FRef("a", "a", 1, "message", "one", c), "empty", "NULL"), F("s", "s", 2, "string", "one")>>)>>
     [] t = "T_ts"          -> <<Msg("W", FN(P, "W"), <<Ann(FRef("a", "a", 1, "message", "one", "google.protobuf.Timestamp"), "ts", "UNIX_SECONDS"),
                                                       Ann(FRef("b", "b", 2, "message", "one", "google.protobuf.Timestamp"), "ts", "DATE")>>)>>
     [] t = "T_bytes"       -> <<Msg("W", FN(P, "W"), <<Ann(F("a", "a", 1, "bytes", "one"), "bytes", "HEX"), Ann(F("b", "b", 2, "bytes", "one"), "bytes", "BASE64URL_RAW")>>)>>
@@ -240,10 +254,22 @@ C15Case(P, t) ==
       s1 == WithHeaders(Service("SvcOne", TRUE, Parts(TRUE, <<Lit("one")>>, FALSE), <<doA, doW>>), H3)
       s2 == WithHeaders(Service("SvcTwo", FALSE, NoParts, <<Method("Other", FN(P, "MapB"), FN(P, "Out"), TRUE, Parts(TRUE, <<Lit("o")>>, FALSE), "POST"),
                                                            Method("Roots", FN(P, "RootA"), FN(P, "RootB"), TRUE, Parts(TRUE, <<Lit("r")>>, FALSE), "POST")>>), H3)
-  IN Schema(<<File(P \o "/types_a.proto", Pkg(P), GoPkg(P), TRUE, <<>>, <<>>, <<Child(P), Child2(P), la>>, <<EnumE>>),
-              File(P \o "/types_b.proto", Pkg(P), GoPkg(P), TRUE, <<P \o "/types_a.proto">>, <<>>, <<lb, ma>> \o TwinMsgs(P, t), <<EnumPlain>>),
+      \* messages following the custom-error naming convention (...Error) that live in the type files and
+      \* that no RPC reaches: what a service's module declares must not depend on which sibling files of
+      \* the package happen to be generated in the same run
+      ea == Msg("QuotaExceededError", FN(P, "QuotaExceededError"), <<F("limit", "limit", 1, "int64", "one"), FRef("kind", "kind", 2, "enum", "one", FN(P, "E"))>>)
+      eb == Msg("RateLimitError", FN(P, "RateLimitError"), <<F("retry_after", "retryAfter", 1, "int32", "one")>>)
+      es == Msg("SvcLocalError", FN(P, "SvcLocalError"), <<F("why", "why", 1, "string", "one")>>)
+  IN Schema(<<File(P \o "/types_a.proto", Pkg(P), GoPkg(P), TRUE, <<>>, <<>>, <<Child(P), Child2(P), la, ea>>, <<EnumE>>),
+              File(P \o "/types_b.proto", Pkg(P), GoPkg(P), TRUE, <<P \o "/types_a.proto">>, <<>>, <<lb, ma, eb>> \o TwinMsgs(P, t), <<EnumPlain>>),
               File(P \o "/svc.proto", Pkg(P), GoPkg(P), TRUE, <<P \o "/types_a.proto", P \o "/types_b.proto">>,
-                   <<s1, s2>>, <<Out(P), mb, ra, rb>>, <<>>)>>)
+                   <<s1, s2>>, <<Out(P), mb, ra, rb, es>>, <<>>),
+              \* two files of the same package that nothing imports: visible to a plugin only when they are
+              \* generated in the same run
+              File(P \o "/errors.proto", Pkg(P), GoPkg(P), TRUE, <<>>, <<>>,
+                   <<Msg("StandaloneError", FN(P, "StandaloneError"), <<F("code", "code", 1, "int32", "one")>>)>>, <<>>),
+              File(P \o "/errors_more.proto", Pkg(P), GoPkg(P), TRUE, <<>>, <<>>,
+                   <<Msg("AnotherError", FN(P, "AnotherError"), <<F("detail", "detail", 1, "string", "one")>>)>>, <<>>)>>)
 Variants == {"base", "repeat", "permuted", "single", "extra_unrelated", "procs1"}
 
 (***************************************************************************)
@@ -252,13 +278,30 @@ Variants == {"base", "repeat", "permuted", "single", "extra_unrelated", "procs1"
 Shapes == {"self_rec", "mutual_rec", "rec_via_map", "rec_via_oneof", "rec_via_repeated", "nested_types", "empty_msg",
            "svc_no_methods", "no_package", "no_go_package", "shared_req", "wkt", "optional", "deep", "long_names", "rec_response",
            \* cycles that run through annotated constructs (the traversals of the codec generators)
-           "rec_flat_oneof", "rec_disc_oneof", "rec_under_flatten", "rec_unwrap", "rec_flatten_self"}
+           "rec_flat_oneof", "rec_disc_oneof", "rec_under_flatten", "rec_unwrap", "rec_flatten_self",
+           \* acyclic graphs with many PATHS to one message (a traversal that forgets what it has finished
+           \* visits a message once per path: 2^26, 3^16, 11! visits)
+           "diamond_layers", "map_chain", "clique"}
 RECURSIVE DeepMsgs(_, _, _)
 DeepMsgs(P, i, n) ==
   IF i > n THEN <<>>
   ELSE <<Msg("D" \o ToString(i), FN(P, "D" \o ToString(i)),
              IF i = n THEN <<F("leaf", "leaf", 1, "string", "one")>>
              ELSE <<FRef("next", "next", 1, "message", "one", FN(P, "D" \o ToString(i + 1)))>>)>> \o DeepMsgs(P, i + 1, n)
+\* L1 .. Ln: every layer refers to the next one through two fields (diamond) or through a map, a list and a field (map_chain)
+LayerMsgs(P, n, kind) ==
+  [i \in 1..n |->
+     LET nm == "L" \o ToString(i) nx == FN(P, "L" \o ToString(i + 1)) IN
+     Msg(nm, FN(P, nm),
+         IF i = n THEN <<F("leaf", "leaf", 1, "string", "one")>>
+         ELSE IF kind = "diamond" THEN <<FRef("a", "a", 1, "message", "one", nx), FRef("b", "b", 2, "message", "one", nx)>>
+         ELSE <<FMap("m", "m", 1, "string", "message", nx), FRef("r", "r", 2, "message", "rep", nx), FRef("o", "o", 3, "message", "one", nx)>>)]
+\* K1 .. Kn: every message refers to every other one
+CliqueMsgs(P, n) ==
+  [i \in 1..n |->
+     LET nm == "K" \o ToString(i)
+         others == SetToSeq((1..n) \ {i})
+     IN Msg(nm, FN(P, nm), [j \in DOMAIN others |-> FRef("k" \o ToString(others[j]), "k" \o ToString(others[j]), j, "message", "one", FN(P, "K" \o ToString(others[j])))])]
 C16Case(P, sh, depth) ==
   LET w(fields) == Msg("W", FN(P, "W"), fields)
       std(msgs) == Schema(<<File(P \o "/svc.proto", Pkg(P), GoPkg(P), TRUE, <<>>,
@@ -317,6 +360,9 @@ C16Case(P, sh, depth) ==
        [] sh = "optional" -> std(<<w(<<F("a", "a", 1, "string", "opt"), F("b", "b", 2, "int64", "opt"), FRef("c", "c", 3, "message", "opt", FN(P, "W")),
                                         FRef("e", "e", 4, "enum", "opt", FN(P, "E")), F("f", "f", 5, "bytes", "opt")>>)>>)
        [] sh = "deep" -> std(<<w(<<FRef("d", "d", 1, "message", "one", FN(P, "D1"))>>)>> \o DeepMsgs(P, 1, depth))
+       [] sh = "diamond_layers" -> std(<<w(<<FRef("d", "d", 1, "message", "one", FN(P, "L1"))>>)>> \o LayerMsgs(P, 26, "diamond"))
+       [] sh = "map_chain" -> std(<<w(<<FRef("d", "d", 1, "message", "one", FN(P, "L1"))>>)>> \o LayerMsgs(P, 16, "map"))
+       [] sh = "clique" -> std(<<w(<<FRef("d", "d", 1, "message", "one", FN(P, "K1"))>>)>> \o CliqueMsgs(P, 11))
        [] sh = "long_names" -> std(<<w(<<F("LONGNAME_f", "LONGNAMEF", 1, "string", "one"), FRef("m", "m", 2, "message", "one", FN(P, "LONGNAME_M"))>>),
                                      Msg("LONGNAME_M", FN(P, "LONGNAME_M"), <<F("k", "k", 1, "string", "one")>>)>>)
 Params == {"plain", "mock", "json", "yaml", "source_relative"}
